@@ -169,6 +169,26 @@ def run(ck, F):
                                        dict(vv[2]) == {'index': ('fld', THIS, 'index'), 'seq': ('fld', THIS, 'seq')})
         else:
             okv = got == want[0] or (name in ('operator*', 'operator->') and got.replace('&*', '&') == want[0].replace('&*', '&'))
+        if not okv and name in ('operator==', 'operator!='):
+            # the same truth table over the two member comparisons, however the conjunction is ordered or negated
+            import itertools
+            import eqrule as _eqr
+            paths = [(list(s_.conds), v_) for s_, k_, v_ in outs]
+            seq_eq = ('eq',) + tuple(sorted((('fld', THIS, 'seq'), ('fld', ('param', 0), 'seq')), key=repr))
+            idx_eq = ('eq',) + tuple(sorted((('fld', THIS, 'index'), ('fld', ('param', 0), 'index')), key=repr))
+            atoms = set()
+            for conds_, v_ in paths:
+                for c_, _b in conds_:
+                    _eqr._atoms(c_, atoms)
+                _eqr._atoms(v_, atoms)
+            if atoms <= {seq_eq, idx_eq} and atoms:
+                good_tt = True
+                for bits in itertools.product((False, True), repeat=2):
+                    env = {seq_eq: bits[0], idx_eq: bits[1]}
+                    vals = {_eqr._value(v_, env) for conds_, v_ in paths if all(_eqr._value(c_, env) == b_ for c_, b_ in conds_)}
+                    wanted = (bits[0] and bits[1]) if name == 'operator==' else not (bits[0] and bits[1])
+                    good_tt = good_tt and vals == {wanted}
+                okv = good_tt
         okeff = eff == want[1]
         if not okeff and name in ('operator++', 'operator--') and idx_after is not None:
             # the same value however the step is written (x + 1, x - -1, 1 + x)
